@@ -95,7 +95,7 @@ def _simplify(ctx, p, ci):
     pts = P(ci)
     which = rng.choice(['rdp', 'grdp', 'grdp', 'rdp_fixed', 'mp_grdp', 'min_point_rdp', 'min_point_rdp'])
     if n > 600:
-        which = rng.choice(['rdp_fixed', 'rdp_fixed', 'rdp'])      # the global variants are quadratic and worse
+        which = 'rdp_fixed'      # the other variants are quadratic or worse, or may keep every point
     cost = E('metrics.Metrics.' + rng.choice(METRICS))
     t = F(rng.choice([0.5, 0.1, 0.05, 0.01, 0.001, 0.001, 0.0]))
     if 'r2' in cost['enum']:
